@@ -1,6 +1,8 @@
 (* C05 — SNI/ALPN demultiplexing selects the right host, channel and protocol. *)
 From Coq Require Import List NArith Bool.
-From TT Require Import Lib.BytesL Model.TlsDemux Spec.SniRouting Generated.DemuxFacts Proofs.TlsDemuxProofs.
+From TT Require Import Model.ConnectPolicy Model.Rules Generated.RulesFacts.
+From TT Require Import Lib.BytesL Model.TlsDemux Spec.SniRouting Generated.DemuxFacts Proofs.TlsDemuxProofs
+  Model.FrontDoor Proofs.FrontDoorProofs.
 Import ListNotations.
 Open Scope N_scope.
 
@@ -35,6 +37,28 @@ Proof.
   repeat split; exact eq_refl.
 Qed.
 Print Assumptions tcp_refuses_no_sni_and_h3.
+
+(* in the composition with the rules and the handshake (Model/FrontDoor.v): a TCP connection is served only as
+   the demultiplexer's selection for its SNI and ALPN offer, never with HTTP/3, and only if the rules allow it;
+   when they allow it the outcome is the demultiplexer's alone *)
+Theorem served_connection_is_the_selection :
+  (forall rules c peer h m,
+     front_tcp RULES_ON_CANONICAL_PEER RULES_DENY_DROPS RULES_BEFORE_TLS_ACCEPT rules c peer h = FServe m ->
+     connection_verdict RULES_ON_CANONICAL_PEER rules peer (h_random h) = Allow
+     /\ select_tcp c (h_alpn h) (h_sni h) = Some m /\ m_proto m <> H3)
+  /\ (forall rules c peer h,
+        connection_verdict RULES_ON_CANONICAL_PEER rules peer (h_random h) = Allow ->
+        front_tcp RULES_ON_CANONICAL_PEER RULES_DENY_DROPS RULES_BEFORE_TLS_ACCEPT rules c peer h =
+        match h_sni h with
+        | None => FNoSni
+        | Some _ => match select_tcp c (h_alpn h) (h_sni h) with Some m => FServe m | None => FNoSelection end
+        end).
+Proof.
+  split.
+  - intros rules c peer h m. exact (served_means_allowed_and_selected RULES_ON_CANONICAL_PEER rules c peer h m).
+  - intros rules c peer h. exact (allowed_outcome_is_the_demultiplexers RULES_ON_CANONICAL_PEER rules c peer h).
+Qed.
+Print Assumptions served_connection_is_the_selection.
 
 (* hot reload: a successful reload switches everything at once, a failed one changes nothing *)
 Theorem reload_atomic :
